@@ -423,12 +423,20 @@ Ltac fold_mark :=
     change (fold_left (fun acc r => match nget acc r with
                                     | Some q => nset acc r (mkR (r_phase q) true)
                                     | None => acc end) still rq) with (mark_cancelled still rq)
+  | H : context [fold_left (fun acc r => match nget acc r with
+                                        | Some q => nset acc r (mkR (r_phase q) true)
+                                        | None => acc end) ?still ?rq] |- _ =>
+    change (fold_left (fun acc r => match nget acc r with
+                                    | Some q => nset acc r (mkR (r_phase q) true)
+                                    | None => acc end) still rq) with (mark_cancelled still rq) in H
   end.
 
 Ltac fold_add_new :=
   repeat match goal with
   | |- context [fold_left (fun acc t => nset acc t (mkT ?lb TAdding [] [] false)) ?ts ?tg] =>
     change (fold_left (fun acc t => nset acc t (mkT lb TAdding [] [] false)) ts tg) with (add_new lb ts tg)
+  | H : context [fold_left (fun acc t => nset acc t (mkT ?lb TAdding [] [] false)) ?ts ?tg] |- _ =>
+    change (fold_left (fun acc t => nset acc t (mkT lb TAdding [] [] false)) ts tg) with (add_new lb ts tg) in H
   end.
 
 (** after [step_inv]: push projections through the explicit new state *)
